@@ -163,6 +163,72 @@ var stringZoo = []string{`"plain"`, `'single'`, `"esc\n\t\\\"q"`, `'it\'s'`, `"\
 multi
 line]=]`, `"tab	inside"`, `"é中😀"`, `'\a\b\f\v\r'`, `"\0\00\000"`, `"\255"`}
 
+// GenNumeral draws a valid numeral of the supported language: decimal / hexadecimal integers of any magnitude around the
+// 32-, 53-, 63- and 64-bit boundaries, decimal and hexadecimal floats with exponents, and LuaJIT 64-bit literals (LL / ULL
+// in any letter case) whose value fits the 64-bit type.
+func GenNumeral(r *Rng) string {
+	digits := func(alpha string, n int) string {
+		b := make([]byte, n)
+		for i := range b {
+			b[i] = alpha[r.Intn(len(alpha))]
+		}
+		return string(b)
+	}
+	const dec, hex = "0123456789", "0123456789abcdefABCDEF"
+	boundaryDec := []string{"2147483647", "2147483648", "4294967295", "4294967296", "9007199254740992", "9007199254740993",
+		"9223372036854775807", "9223372036854775808", "18446744073709551615", "18446744073709551616", "340282366920938463463374607431768211456"}
+	boundaryHex := []string{"7fffffff", "80000000", "ffffffff", "100000000", "7fffffffffffffff", "8000000000000000", "ffffffffffffffff",
+		"FFFFFFFFFFFFFFFF", "DEADBEEFCAFEBABE", "10000000000000000", "ffffffffffffffffffff"}
+	suffix := func() string { return r.Pick([]string{"LL", "ll", "ULL", "ull", "Ull", "uLL", "Ll"}) }
+	switch r.Intn(9) {
+	case 0:
+		return r.Pick(boundaryDec)
+	case 1:
+		return r.Pick([]string{"0x", "0X"}) + r.Pick(boundaryHex)
+	case 2:
+		return digits(dec, r.Range(1, 22))
+	case 3:
+		return r.Pick([]string{"0x", "0X"}) + digits(hex, r.Range(1, 20))
+	case 4: // decimal float
+		s := digits(dec, r.Range(0, 6))
+		f := digits(dec, r.Range(0, 6))
+		if s == "" && f == "" {
+			s = "1"
+		}
+		out := s + "." + f
+		if r.Bool() {
+			out += r.Pick([]string{"e", "E"}) + r.Pick([]string{"", "+", "-"}) + digits(dec, r.Range(1, 3))
+		}
+		return out
+	case 5: // hexadecimal float
+		s := digits(hex, r.Range(0, 5))
+		f := digits(hex, r.Range(0, 5))
+		if s == "" && f == "" {
+			s = "a"
+		}
+		out := "0x" + s
+		if f != "" || r.Bool() {
+			out += "." + f
+		}
+		if r.Bool() || (f == "" && s == "") {
+			out += r.Pick([]string{"p", "P"}) + r.Pick([]string{"", "+", "-"}) + digits(dec, r.Range(1, 3))
+		}
+		if out == "0x." {
+			out = "0x.8"
+		}
+		return out
+	case 6: // 64-bit literal, decimal: LL up to 2^63-1, ULL up to 2^64-1
+		sfx := suffix()
+		if strings.HasPrefix(strings.ToUpper(sfx), "U") {
+			return r.Pick([]string{"0", "1", "4294967296", "9223372036854775807", "9223372036854775808", "18446744073709551615", digits("123456789", r.Range(1, 19))}) + sfx
+		}
+		return r.Pick([]string{"0", "7", "2147483648", "9223372036854775807", digits("12345678", r.Range(1, 18))}) + sfx
+	case 7: // 64-bit literal, hexadecimal: any 1-16 hex digits, bit 63 included
+		return r.Pick([]string{"0x", "0X"}) + r.Pick([]string{"0", "ff", "7fffffffffffffff", "8000000000000000", "ffffffffffffffff", "DEADBEEFCAFEBABE", digits(hex, r.Range(1, 16))}) + suffix()
+	}
+	return digits(dec, r.Range(1, 3)) + r.Pick([]string{"e", "E"}) + r.Pick([]string{"", "+", "-"}) + digits(dec, r.Range(1, 3))
+}
+
 func (g *Gen) literal() string {
 	switch g.r.Intn(8) {
 	case 0:
@@ -173,6 +239,9 @@ func (g *Gen) literal() string {
 		return "false"
 	case 3, 4:
 		if g.cfg.NumeralZoo && g.r.Chance(1, 2) {
+			if g.r.Chance(1, 3) {
+				return GenNumeral(g.r)
+			}
 			return g.r.Pick(numeralZoo)
 		}
 		return fmt.Sprint(g.r.Intn(100))
